@@ -95,7 +95,7 @@ DEFAULT_PROFILE = dict(
     switch_m_untracked_new_file=True,   # checkout/switch -m to another commit while an agent-created untracked file is carried (finding D69 when off)
     stash_with_untracked_initial_pending=True,   # git stash while an untracked agent file has INITIAL-only claims (finding D70 when off)
     reset_path_dash_name=True,    # `git reset -- <name starting with a dash>` (finding D56 when off)
-    unstaged_replacement_hunks=True,   # index vs work tree differ by hunks that remove lines of the commit (finding D75 when off)
+    unstaged_replacement_hunks=True,   # an agent's unstaged replacement of lines that a plain commit adds from the index (finding D82 when off)
 )
 
 
